@@ -121,6 +121,7 @@ def _gen_pix(rng, tier: str, chunk_hint=None) -> dict:
         # dtype of the four coordinate rows (default: that of the signal) and integer ids beyond 2**53
         "cdtype": rng.choice([None, None, None, "int64", "int32"]),
         "id_edge": rng.random() < 0.15,
+        "coord_order": rng.randrange(1, 1 << 20) if rng.random() < 0.4 else 0,
         "units": {
             "u1": rng.choice(Q_UNITS), "u2": rng.choice(Q_UNITS), "u3": rng.choice(Q_UNITS),
             "u4": rng.choice(E_UNITS), "signal": rng.choice(C_UNITS),
@@ -481,6 +482,13 @@ def make_pixels(sc, p: dict):
         coords["extra"] = sc.array(dims=["obs"], values=g.uniform(0, 1, n), unit="s")
     data = sc.array(dims=["obs"], values=vals(0, 1000), variances=np.abs(vals(0.1, 30)).astype(vd),
                     unit=u["signal"])
+    if p.get("coord_order"):
+        # the order in which the caller attached the coordinates is not part of the data
+        import random as _r
+
+        keys = list(coords)
+        _r.Random(p["coord_order"]).shuffle(keys)
+        coords = {k: coords[k] for k in keys}
     how = p.get("layout", "plain")
     if how != "plain" and n > 0:
         coords = {k: _embed(sc, v, how) for k, v in coords.items()}
